@@ -159,3 +159,85 @@ Proof.
   - apply lin_derive. exact H.
   - intros a. apply Taylor_derive. exact H.
 Qed.
+
+(* ---- below the threshold the expansion lies strictly ABOVE the logarithm
+   (third-order remainder): used to show that the guard of the zero-ratio
+   removal clause is sharp *)
+Definition hgap (alpha a : R) : R := Taylor alpha a - ln (1 + a).
+Definition dhgap (alpha a : R) : R :=
+  / (1 + alpha) - (a - alpha) / (1 + alpha) / (1 + alpha) - / (1 + a).
+
+Lemma hgap_derive alpha a :
+  0 < 1 + alpha -> 0 < 1 + a -> is_derive (hgap alpha) a (dhgap alpha a).
+Proof.
+  intros Hp Hq. unfold hgap, dhgap.
+  apply (is_derive_minus (Taylor alpha) (fun t => ln (1 + t))).
+  - apply Taylor_derive. exact Hp.
+  - apply log_derive. exact Hq.
+Qed.
+
+Lemma dhgap_form alpha a :
+  0 < 1 + alpha -> 0 < 1 + a ->
+  dhgap alpha a = - ((alpha - a) * (alpha - a)) / ((1 + alpha) * (1 + alpha) * (1 + a)).
+Proof. intros Hp Hq. unfold dhgap. field. lra. Qed.
+
+Lemma dhgap_nonpos alpha a : 0 < 1 + alpha -> 0 < 1 + a -> dhgap alpha a <= 0.
+Proof.
+  intros Hp Hq. rewrite dhgap_form by assumption.
+  unfold Rdiv. rewrite Ropp_mult_distr_l_reverse.
+  apply Rge_le, Ropp_0_le_ge_contravar.
+  apply Rmult_le_pos; [apply Rle_0_sqr|].
+  apply Rlt_le, Rinv_0_lt_compat.
+  apply Rmult_lt_0_compat; [apply Rmult_lt_0_compat|]; assumption.
+Qed.
+
+Lemma dhgap_neg alpha a : 0 < 1 + alpha -> 0 < 1 + a -> a <> alpha -> dhgap alpha a < 0.
+Proof.
+  intros Hp Hq Hne. rewrite dhgap_form by assumption.
+  unfold Rdiv. rewrite Ropp_mult_distr_l_reverse.
+  apply Ropp_lt_gt_0_contravar.
+  apply Rmult_lt_0_compat.
+  - assert (H : alpha - a <> 0) by lra.
+    pose proof (Rsqr_pos_lt _ H) as Hs. unfold Rsqr in Hs. exact Hs.
+  - apply Rinv_0_lt_compat.
+    apply Rmult_lt_0_compat; [apply Rmult_lt_0_compat|]; assumption.
+Qed.
+
+Lemma hgap_mvt alpha x y :
+  0 < 1 + alpha -> -1 < x -> x < y ->
+  exists c, x <= c <= y /\ hgap alpha y - hgap alpha x = dhgap alpha c * (y - x).
+Proof.
+  intros Hp Hx Hxy.
+  destruct (MVT_gen (hgap alpha) x y (dhgap alpha)) as (c & Hc & E).
+  - intros t Ht. rewrite Rmin_left, Rmax_right in Ht by lra.
+    apply hgap_derive; [exact Hp|lra].
+  - intros t Ht. rewrite Rmin_left, Rmax_right in Ht by lra.
+    apply continuity_pt_filterlim.
+    apply (ex_derive_continuous (hgap alpha) t).
+    exists (dhgap alpha t). apply hgap_derive; [exact Hp|lra].
+  - rewrite Rmin_left, Rmax_right in Hc by lra. exists c. split; assumption.
+Qed.
+
+Theorem Taylor_above_log alpha a :
+  0 < 1 + alpha -> -1 < a -> a < alpha -> ln (1 + a) < Taylor alpha a.
+Proof.
+  intros Hp Ha Hlt.
+  assert (H0 : hgap alpha alpha = 0).
+  { unfold hgap. rewrite Taylor_at. lra. }
+  pose (m := (a + alpha) / 2).
+  assert (Hm : a < m < alpha) by (unfold m; lra).
+  (* hgap m >= 0 *)
+  destruct (hgap_mvt alpha m alpha Hp) as (c1 & Hc1 & E1); [lra|lra|].
+  assert (D1 : dhgap alpha c1 <= 0) by (apply dhgap_nonpos; lra).
+  assert (G1 : 0 <= hgap alpha m).
+  { rewrite H0 in E1.
+    assert (dhgap alpha c1 * (alpha - m) <= 0).
+    { rewrite <- (Rmult_0_l (alpha - m)). apply Rmult_le_compat_r; lra. }
+    lra. }
+  (* hgap a > hgap m *)
+  destruct (hgap_mvt alpha a m Hp) as (c2 & Hc2 & E2); [lra|lra|].
+  assert (D2 : dhgap alpha c2 < 0) by (apply dhgap_neg; lra).
+  assert (G2 : hgap alpha m - hgap alpha a < 0).
+  { rewrite E2. rewrite <- (Rmult_0_l (m - a)). apply Rmult_lt_compat_r; lra. }
+  unfold hgap in G1, G2 |- *. unfold hgap in *. lra.
+Qed.
